@@ -3,9 +3,10 @@ EXTENDS TlvEdit, Json
 CONSTANTS Wide     \* FALSE: the small alphabet explored exhaustively; TRUE: the wide alphabet, for random behaviours (tlc -simulate)
 (* payload lengths that put an element, or the sum of two siblings, on either side of the 0xff / 0x100 boundary *)
 Leaf(g, l) == [tag |-> g, nc |-> FALSE, fw |-> FALSE, len |-> l, sub |-> <<>>]
-SmallEls == {Leaf(2, l) : l \in {0, 253, 254}} \cup {Leaf(33, l) : l \in {0, 251, 252}}
+SmallEls == {Leaf(2, l) : l \in {0, 253, 254}} \cup {Leaf(33, l) : l \in {0, 251, 252}} \cup {[Leaf(34, 1) EXCEPT !.nc = TRUE]}
 WideEls == {Leaf(2, l) : l \in {0, 1, 125, 126, 252, 253, 254, 255, 256}} \cup {Leaf(3, l) : l \in {0, 126, 255}} \cup {Leaf(33, l) : l \in {0, 250, 251, 252, 255}}
            \cup {[Leaf(4, 255) EXCEPT !.nc = TRUE], [Leaf(5, 0) EXCEPT !.fw = TRUE]}
+           \cup {[Leaf(34, 1) EXCEPT !.nc = TRUE], [Leaf(6, 256) EXCEPT !.fw = TRUE], [Leaf(35, 0) EXCEPT !.nc = TRUE, !.fw = TRUE]}     \* flags on long headers
 MCElements == IF Wide THEN WideEls ELSE SmallEls
 MCRootTags == IF Wide THEN {1, 31, 32, 2049} ELSE {1, 2049}
 Emit == Len(hist) = MaxOps => PrintT("CASE " \o ToJson([root |-> [tag |-> tree.tag], hist |-> hist]))
